@@ -362,6 +362,7 @@ def criteria_for(rng, cells):
     out += rng.sample(['a*', '?', '*b', '<>a*', 'A?', '*', '=?b*', '<b', '>=b', '<>b',
                        '<=Cat', '>10', '<>?', 'total*', 'tota?', '<>total*', 'a?b',
                        '*2024'], 6)
+    out.append(rng.choice(['<>', '=']))     # a bare operator: (not) blank cells
     return out
 
 
@@ -375,7 +376,7 @@ def run_criteria(rng, ctx, n_cases):
         carg, varg = rng_arg(_shape(cells, as_row)), rng_arg(_shape(vals, as_row))
         for crit in criteria_for(rng, cells):
             pc = rl.parse_criterion(crit)
-            fam = 'unparsed' if pc is None else '%s:%s' % (pc[0], (
+            fam = 'unparsed' if pc is None else '%s:%s' % (pc[0], 'bare' if pc[1] is rl.BLANK else (
                 'wildcard' if rl.tid(pc[1]) == 't' and rl.wildcard(pc[1]) else rl.tid(pc[1])))
             cform = _form(rng, crit)
             judge(ctx, 'COUNTIF', [carg, cform], rl.countif(cells, crit), fam)
